@@ -325,7 +325,7 @@ theorem C16_no_panic (db : Db) (now : Time) (rpc : Rpc) : (handle db now rpc).2.
     · split
       · exact ofErr_ne_panic _
       · simp
-  | publishCheck topic => simp only [handle]; unfold hPublishCheck; split <;> (try split) <;> simp
+  | publishCheck topic bad => simp only [handle]; unfold hPublishCheck; split <;> (try split) <;> (try split) <;> simp
 
 /-- every leaf of a handler either leaves the database alone or answers OK -/
 macro "leaf_frame" f:ident : tactic =>
@@ -352,7 +352,7 @@ theorem handle_frame (db : Db) (now : Time) (rpc : Rpc) :
   | getSnap name => simp only [handle]; leaf_frame hGetSnap
   | listSnaps project pageSize token => simp only [handle]; leaf_frame hListSnaps
   | deleteSnap name => simp only [handle]; leaf_frame hDeleteSnap
-  | publishCheck topic => simp only [handle]; leaf_frame hPublishCheck
+  | publishCheck topic bad => simp only [handle]; leaf_frame hPublishCheck
 
 /-- **C16 (rejected requests change nothing)**: a request answered with anything but OK leaves all five
     tables exactly as they were — for every state and every request. -/
